@@ -179,6 +179,22 @@ func (e *Engine) RunCheck(opt CheckOpts) *CheckResult {
 		}
 		if ncan > 0 && ncan == ncanUnsat {
 			res.Vacuous = append(res.Vacuous, ctx.Key+": every exit is unreachable under the precondition (contradictory requires/invariants)")
+		} else if ncanUnsat > 0 {
+			// the canaries of one return statement share a verdict: that statement is unreachable
+			seen := map[string]bool{}
+			for _, o := range ctx.Obls {
+				if o.Kind == "canary" && o.Verdict == "unsat" {
+					k := fmt.Sprintf("%s:%d", filepath.Base(o.Pos.Filename), o.Pos.Line)
+					if !seen[k] {
+						seen[k] = true
+						res.Vacuous = append(res.Vacuous, ctx.Key+": no path reaches the return at "+k+" (contradictory contracts on the way, or dead code)")
+					}
+				}
+			}
+		}
+		if len(ctx.VacuousSites) > 0 {
+			sort.Strings(ctx.VacuousSites)
+			res.Vacuous = append(res.Vacuous, ctx.Key+": no satisfiable path continues after the call(s) "+strings.Join(ctx.VacuousSites, ", ")+" (contradictory contract, ghost update or invariant)")
 		}
 		if len(ctx.Errs) == 0 && ctx.Ends == 0 && !ctx.panicOnly {
 			res.Vacuous = append(res.Vacuous, ctx.Key+": no path reaches a normal exit")
